@@ -122,4 +122,7 @@ pub fn run(rc: &mut RunCtx) {
     for l in ["implied_ancestors", "mixed_known_unknown", "input_mutated", "input_mid_document", "ended_cleanly", "ended_in_error", "template_outer_element_inside_known_child_of_unknown"] {
         rc.require_label("structure", l, 10_000);
     }
+    if !rc.quick() {
+        rc.run_fuzz(Some(STAGES[0]), 300);
+    }
 }
